@@ -18,7 +18,7 @@ RULE = (
     "distinct = distinct cell tuples / distinct sequence shapes"
 )
 ASSUMPTIONS = ["EMPTY_ACK_DELAY is 0.1 s (read from the library at run time)", "simulated one-way latency 1 ms"]
-REQUIRED_MONITORS = {"table_cell": 500, "table_cell_busy_peer": 100, "mid_boundary": 100, "duplicate_delivery": 100, "token_reuse": 50, "misfit_same_mid": 10, "con_never_to_multicast": 500, "sequence": 50, "noninterference": 50}
+REQUIRED_MONITORS = {"multicast_con_request_suppressed": 4, "table_cell": 500, "table_cell_busy_peer": 100, "mid_boundary": 100, "duplicate_delivery": 100, "token_reuse": 50, "misfit_same_mid": 10, "con_never_to_multicast": 500, "sequence": 50, "noninterference": 50}
 EXHAUSTIVE = {"single_message_table": "types x codes x token known/unknown x unicast/multicast x delays x No-Response x result class as enumerated by cells()"}
 
 CON, NON, ACK, RST = 0, 1, 2, 3
@@ -55,6 +55,14 @@ def cells(tier="quick"):
                                 if d and rc_ in ("missing-4.04", "method-4.05"):
                                     continue  # no handler runs: nothing can be slow
                                 out.append((typ, code, False, False, d, nr, rc_))
+                if typ == CON and code == 1:
+                    # a confirmable request that arrived on a multicast address (not to be sent, RFC 7252 8.1, but
+                    # served all the same): the one thing the statement says about it is that a response No-Response
+                    # suppresses is not sent
+                    for d in (0.0, 1.0):
+                        for nr in (None, 2, 26):
+                            out.append((typ, code, False, True, d, nr, 69))
+                            out.append((typ, code, False, "v4", d, nr, 69))
                 if typ == NON:
                     for d in (0.0, 1.0):
                         for nr in (None, 26):
@@ -128,7 +136,7 @@ def expected(cell, ead):
             sup = suppressed(nr, 69) or suppressed(nr, 160)
         if typ == CON:
             if mc:
-                return None
+                return "mc-con-suppressed" if sup else None
             if d < ead:
                 return [(d, {ACK}, 0 if sup else rcode_eff, "same", not sup)]
             return [(ead, {ACK}, 0, "same", False)] + ([] if sup else [(d, {CON, NON}, rcode_eff, "fresh", True)])
@@ -283,6 +291,13 @@ def judge_cell(cell, test_msg, t_arrival, reacts, ead, rep, case, witness):
         rep.count("unspecified_cell")
         return
     obs = [(round(e.t - t_arrival, 6), e.msg.type, e.msg.code, "same" if e.msg.mid == test_msg.mid else "fresh", e.msg.token == test_msg.token and bool(test_msg.token)) for e in mine]
+    if exp == "mc-con-suppressed":
+        rep.monitor("multicast_con_request_suppressed")
+        bad = [o for o in obs if o[2] != 0]
+        acks = [o for o in obs if o[1] == rc.ACK and o[2] == 0]
+        if bad or len(acks) > 1:
+            rep.violation("table/multicast-con-request/suppressed-response-sent", "a CON request received on a multicast address whose response No-Response suppresses drew %s" % ("a response" if bad else "more than one empty ACK"), witness(observed=obs), case)
+        return
     if exp == "mc-non":
         bad = [o for o in obs if o[1] in (rc.ACK, rc.CON)]
         if bad:
@@ -477,7 +492,7 @@ def run_shard(shard, rep, only=None):
         if idx == 0 and i < 48 and i % 16 == 0:
             rep.sample({"class": "table-cell", "cell": repr(cell), "expected": repr(expected(cell, ead))})
     # ---- message-ID boundary values (0 and 0xFFFF) for every judged unicast cell with an immediate / slow handler ----
-    mid_cells = [c for c in allc if expected(c, ead) not in (None, "mc-non") and not c[3] and c[4] in (0.0, 1.0) and c[5] in (None, 26)]
+    mid_cells = [c for c in allc if expected(c, ead) not in (None, "mc-non", "mc-con-suppressed") and not c[3] and c[4] in (0.0, 1.0) and c[5] in (None, 26)]
     k = 0
     for cell in mid_cells:
         for mid in (0, 0xFFFF):
@@ -506,7 +521,7 @@ def run_shard(shard, rep, only=None):
             run_cell(cell, shard["seed"] * 7919 + 130000 + k, rep, case, dup_at=dups)
             rep.monitor("duplicate_delivery")
     # ---- the same table against a node that has an unacknowledged CON in flight to the peer and one held back ----
-    busy_cells = [c for c in allc if expected(c, ead) not in (None, "mc-non") and not c[3] and (c[4] in (0.0, 1.0))]
+    busy_cells = [c for c in allc if expected(c, ead) not in (None, "mc-non", "mc-con-suppressed") and not c[3] and (c[4] in (0.0, 1.0))]
     for i, cell in enumerate(busy_cells):
         if i % of != idx:
             continue
@@ -517,7 +532,7 @@ def run_shard(shard, rep, only=None):
             continue
         run_cell(cell, shard["seed"] * 7919 + 50000 + i, rep, case, busy=True)
     # ---- sequences -------------------------------------------------------------------
-    judged = [c for c in allc if expected(c, ead) not in (None, "mc-non")]
+    judged = [c for c in allc if expected(c, ead) not in (None, "mc-non", "mc-con-suppressed")]
     nseq = 12 if tier == "quick" else 1500
     for j in range(nseq):
         case = ["seq", j]
